@@ -382,8 +382,13 @@ func (n *Node) Query(db, sqlText string, lay Layout) (*commonmodels.ResultSet, e
 				if err := tsList.Unmarshal(p.resp.Payload); err == nil {
 					sim.Event("  payload: start=%d end=%d interval=%d series=%d", tsList.Start, tsList.End, tsList.Interval, len(tsList.TimeSeriesList))
 					for _, ts := range tsList.TimeSeriesList {
-						for name, data := range ts.Fields {
-							sim.Event("    series tags=%q field=%s bytes=%d", ts.Tags, name, len(data))
+						var names []string
+						for name := range ts.Fields {
+							names = append(names, name)
+						}
+						sort.Strings(names)
+						for _, name := range names {
+							sim.Event("    series tags=%q field=%s bytes=%d", ts.Tags, name, len(ts.Fields[name]))
 						}
 					}
 				}
